@@ -81,8 +81,16 @@ fn p_grp_casts() {
     assert!(as_ref!(g impl Opt1).unwrap().o1() == id ^ 1 && as_mut!(g impl Opt1 + Clone).is_some() && as_ref!(g impl Opt2).is_none());
     assert!(drops() == 0, "C06 check/as_ref/as_mut drop nothing");
     let route: u8 = kani::any();
-    kani::assume(route < 4);
+    kani::assume(route < 5);
     match route {
+        4 => {
+            // casting back through From/Into instead of upcast()
+            let c = cast!(g impl Opt1 + Clone).unwrap();
+            let back: GOBox = From::from(c);
+            assert!(drops() == 0 && back.look() == id ^ 7 && check!(back impl Opt1), "C06 casting back via From drops nothing and the group stays usable");
+            drop(back);
+            assert!(drops() == 1, "C06 final drop destroys the value exactly once");
+        }
         0 => {
             let c = cast!(g impl Opt1).unwrap();
             assert!(drops() == 0 && c.look() == id ^ 7, "C06 a successful cast drops nothing");
